@@ -475,6 +475,14 @@ C09(pre, e, post, line) ==
               LET pr == RefPrice(pre, e, a.bal[i].bank, "TW") IN
               (pr.known /\ (BGe(a.bal[i].l, FONE) \/ (BGe(a.bal[i].a, FONE) /\ pre.banks[a.bal[i].bank].cfg.risk_tier = 0))) => pr.usable # "no",
            [acct |-> e.a.acct])
+  \* taking an account into receivership is a liquidation assessment too: the start measures the maintenance health (spot prices)
+  \* and snapshots the equity (time-weighted prices), so every holding those valuations read needs a usable price of both kinds
+  \* (transactions that first bring a venue up to date are left out: the prices they are assessed on are not those of the pre-state)
+  /\ (e.ev = "tx" /\ Ok(e) /\ (\E k \in 1..Len(e.a.ixs) : e.a.ixs[k].op = "start_liq") /\ (\A k \in 1..Len(e.a.ixs) : e.a.ixs[k].op \notin VenueRefreshOps)) =>
+       \A k \in 1..Len(e.a.ixs) :
+         (e.a.ixs[k].op = "start_liq" /\ Has(e.a.ixs[k], "acct") /\ Has(pre.accts, e.a.ixs[k].acct)) =>
+           Chk("C09", "receivership_assessment_needs_every_holding_priced", line,
+               HoldingsPriced(pre, e, pre.accts[e.a.ixs[k].acct], "RT") /\ HoldingsPriced(pre, e, pre.accts[e.a.ixs[k].acct], "TW"), [acct |-> e.a.ixs[k].acct])
   /\ (e.ev = "withdraw" /\ Ok(e) /\ Has(pre.accts, e.a.acct) /\ Bit(pre.accts[e.a.acct].flags, ACC_RECEIVERSHIP)) =>
        LET pr == RefPrice(pre, e, e.a.bank, "RT") IN
        pr.known => Chk("C09", "receivership_withdraw_needs_usable_positive_price", line, pr.usable # "no" /\ RIsPos(Low(pr)), [bank |-> e.a.bank])
